@@ -1,11 +1,11 @@
 CONSTANTS
-  Cmds = {"read", "set"}
+  Cmds = {"stage", "unstage"}
   Objs = {"x", "y"}
   HA = 2
   PA = 2
   HB = 3
   PB = 1
-  BCmds = {"read"}
+  BCmds = {"unstage"}
   BObjs = {"x"}
   HC = 1
   PC = 3
